@@ -48,12 +48,4 @@ def IsWinner {V} (e : Elem V) (a : Args) (k' : Str) (n : Str) (v : V) : Prop :=
 def readSet (fields : List Str) (a : Args) (x : Str) : Prop :=
   (x ∈ fields ∨ ∃ f, renameTo a x = some f ∧ f ∈ fields) ∧ x ∉ a.om
 
-/-- a renaming given without duplicate sources, none of whose non-field targets is itself renamed:
-    on such renamings the pairwise scan of the code and the mapping view agree (outside: KF-C20-a) -/
-def PlainRename (fields : List Str) (ren : List (Str × Str)) : Prop :=
-  (ren.map (·.1)).Nodup ∧ ∀ p ∈ ren, p.2 ∈ fields ∨ p.2 ∉ ren.map (·.1)
-
-instance (fields : List Str) (ren : List (Str × Str)) : Decidable (PlainRename fields ren) := by
-  unfold PlainRename; exact inferInstance
-
 end Flatland.C20.Spec
